@@ -77,7 +77,7 @@ func ruleRoundTerm() *Rule {
 						if _, isDefer := in.(*ssa.Defer); isDefer && !a.AtRunDefers {
 							return st
 						}
-						if op, recv := isMutexOp(ci.Common()); op == "Mutex.Unlock" && isNodeMutex(recv) && f.Parent == nil {
+						if op, recv := isMutexOp(ci.Common()); op == "Mutex.Unlock" && isNodeMutex(recv) {
 							return space.Map(st, 1, func(pt, old int) uint32 {
 								if space.Val(pt, 0) == EQ {
 									return 1 << 1
@@ -86,7 +86,7 @@ func ruleRoundTerm() *Rule {
 							})
 						}
 					}
-					if iface, m, _ := invokeOf(in); iface == "Transport" && m == r.send && f.Parent == nil {
+					if iface, m, _ := invokeOf(in); iface == "Transport" && m == r.send {
 						a.Observe("term of the round when "+r.target+" releases the mutex for Transport."+r.send, f, in, st)
 					}
 					return st
